@@ -28,7 +28,7 @@ import (
 )
 
 const (
-	Version     = "instr-v6"
+	Version     = "instr-v7"
 	ModulePath  = "github.com/biogo/hts"
 	HookPath    = ModulePath + "/simhook"
 	SimsyncPath = HookPath + "/simsync"
@@ -36,7 +36,11 @@ const (
 
 // Options says what to instrument and where to put the result.
 type Options struct {
-	RepoDir  string   // root of the hts working tree
+	RepoDir  string   // root of the hts working tree to instrument
+	// ModuleDir is where the harness's go.mod `replace` points (/repo). If
+	// RepoDir is another copy of the tree (HTS_SRC), every Go file of that
+	// copy is mapped over ModuleDir, rewritten or not.
+	ModuleDir string
 	SimrtDir string   // /verif/simrt (contains simhook/, bgzf_export.go.in)
 	OutDir   string   // scratch directory for rewritten files and overlay.json
 	StmtPkgs []string // import-path suffixes that get statement-level yields (R10); a "+" prefix selects the StmtYieldAll hook
@@ -128,6 +132,13 @@ func Run(opts Options) (*Stats, error) {
 	}
 	sort.Strings(dirs)
 
+	if opts.ModuleDir == "" {
+		opts.ModuleDir = opts.RepoDir
+	}
+	target := func(p string) string {
+		rel, _ := filepath.Rel(opts.RepoDir, p)
+		return filepath.Join(opts.ModuleDir, rel)
+	}
 	overlay := map[string]string{}
 	fset := token.NewFileSet()
 	imp := importer.ForCompiler(fset, "source", nil)
@@ -161,6 +172,9 @@ func Run(opts Options) (*Stats, error) {
 			}
 			files = append(files, f)
 			names = append(names, fn)
+			if opts.ModuleDir != opts.RepoDir {
+				overlay[target(fn)] = fn
+			}
 			if interesting(f) {
 				needTypes = true
 			}
@@ -212,7 +226,7 @@ func Run(opts Options) (*Stats, error) {
 			if err := os.WriteFile(out, buf.Bytes(), 0o644); err != nil {
 				return nil, err
 			}
-			overlay[names[i]] = out
+			overlay[target(names[i])] = out
 			st.Files++
 		}
 	}
@@ -227,7 +241,7 @@ func Run(opts Options) (*Stats, error) {
 			if e.IsDir() || !strings.HasSuffix(e.Name(), ".go") || strings.HasSuffix(e.Name(), "_test.go") {
 				continue
 			}
-			overlay[filepath.Join(opts.RepoDir, sub, e.Name())] = filepath.Join(opts.SimrtDir, sub, e.Name())
+			overlay[filepath.Join(opts.ModuleDir, sub, e.Name())] = filepath.Join(opts.SimrtDir, sub, e.Name())
 		}
 	}
 	ents, _ := os.ReadDir(opts.SimrtDir)
@@ -237,8 +251,8 @@ func Run(opts Options) (*Stats, error) {
 			continue
 		}
 		parts := strings.Split(strings.TrimSuffix(e.Name(), ".in"), "__")
-		target := filepath.Join(append([]string{opts.RepoDir}, parts...)...)
-		overlay[target] = filepath.Join(opts.SimrtDir, e.Name())
+		tgt := filepath.Join(append([]string{opts.ModuleDir}, parts...)...)
+		overlay[tgt] = filepath.Join(opts.SimrtDir, e.Name())
 	}
 
 	sort.Strings(st.Sites)
